@@ -6,7 +6,8 @@ From AJ Require Import Spec.Rfc8259 Spec.ParseSpec Proofs.Lex Proofs.ParseComple
 From AJ Require Import Model.MsgPack Spec.MsgPackSpec Proofs.ResourceBound.
 Local Open Scope N_scope.
 
-(* Exactly the bytes of the value are consumed, whatever follows: after a value of the grammar followed by
+(* Exactly the bytes of the value are consumed, whatever follows: after a value of the grammar (Spec/Rfc8259.v:
+   strings and keys of at most 65535 decoded bytes, beyond which the reader answers NoMemory) followed by
    [rest] the reader is in state `post s' rest`, i.e. its unread stream is exactly [rest]; for strings,
    literals, arrays and objects nothing is latched, for a number the single byte it looked at is latched
    (at most one further byte taken from the stream).  Leading whitespace is skipped first. *)
